@@ -319,6 +319,14 @@ def _flat_list(scan):
                 if gens[0].ifs or gens[1].ifs:
                     return False, n.targets[0].id, "the scan's work list is built with a filter: some fragments are never compared", "listcomp"
                 return True, n.targets[0].id, "", "listcomp"
+    # (a') the same comprehension written in place as the first argument of combinations(...)
+    for n in body:
+        if isinstance(n, ast.For) and isinstance(n.iter, ast.Call) and (dotted(n.iter.func) or "").split(".")[-1] == "combinations" and n.iter.args and isinstance(n.iter.args[0], ast.ListComp | ast.GeneratorExp):
+            gens = n.iter.args[0].generators
+            if len(gens) == 2 and norm(gens[0].iter) == "self.scaffolds" and isinstance(gens[0].target, ast.Name) and frag_iter(gens[1].iter, gens[0].target.id):
+                if gens[0].ifs or gens[1].ifs:
+                    return False, "<inline>", "the scan's work list is built with a filter: some fragments are never compared", "listcomp"
+                return True, "<inline>", "", "listcomp"
     # (b) for s in self.scaffolds: L.extend(<gen over s.fragments()>)  |  for x in s.fragments(): L.append(...)
     for bf in body:
         if not (isinstance(bf, ast.For) and norm(bf.iter) == "self.scaffolds" and isinstance(bf.target, ast.Name)):
@@ -353,7 +361,11 @@ def _combinations_form(scan, listname):
         a = lp.iter.args
         if not (len(a) == 2 and isinstance(a[1], ast.Constant) and a[1].value == 2):
             return False, f"pairs drawn with {norm(lp.iter)}: not the 2-element combinations"
-        if not (isinstance(a[0], ast.Name) and a[0].id == listname):
+        if listname == "<inline>" and isinstance(a[0], ast.ListComp | ast.GeneratorExp):
+            pass
+        elif not isinstance(a[0], ast.Name):
+            raise AnalysisError(f"{scan.short}: pairs are drawn from '{norm(a[0])[:60]}': how that relates to the list of all fragments is not understood")
+        elif a[0].id != listname:
             return False, f"pairs are drawn from '{norm(a[0])}', not from the flat list '{listname}' of all fragments"
         if not (isinstance(lp.target, ast.Tuple) and len(lp.target.elts) == 2 and all(isinstance(e, ast.Name) for e in lp.target.elts)):
             return None
